@@ -216,11 +216,16 @@ class MonoSubtreeView(ColSequence, ComplexView):
         if type(k) == slice:
             i = 0 if k.start is None else k.start
             end = self.length() if k.stop is None else k.stop
-            for item in v:
+            # Coerce and check everything first: a failing slice-set must not leave a partial write behind.
+            elem_type = self.__class__.element_cls()
+            items = [item if isinstance(item, elem_type) else elem_type.coerce_view(item) for item in v]
+            if i + len(items) != end:
+                raise Exception("failed to do full slice-set, the number of values does not match the slice")
+            if i < 0 or end > self.length():
+                raise IndexError
+            for item in items:
                 self.set(i, item)
                 i += 1
-            if i != end:
-                raise Exception("failed to do full slice-set, not enough values")
         else:
             self.set(k, v)
 
